@@ -161,3 +161,66 @@ theorem mat_gram (m n : Nat) (M : Nat → Nat → K) :
       apply Finset.sum_congr rfl; intro t _; ring⟩
 
 end Scico.Adjoint
+
+namespace Scico.Adjoint
+
+variable {K : Type} [Field K] [StarRing K]
+
+/-! ### nested views (`A.T.T`, `A.T.H`, `A.H.T`, …) of the generic constructions: exact identities of the closures -/
+
+theorem vconj_vconj (x : V K) : vconj (vconj x) = x := by
+  funext i; simp [vconj, conj_eq_star]
+
+/-- `A.T.T = A` (complex branch), closures equal as functions -/
+theorem tr_tr (A : Op K) : Op.tr true (Op.tr true A) = A := by
+  cases A
+  simp [Op.tr, vconj_vconj]
+
+theorem herm_herm (A : Op K) : Op.herm (Op.herm A) = A := by
+  cases A; rfl
+
+theorem cj_cj (A : Op K) : Op.cj (Op.cj A) = A := by
+  cases A
+  simp [Op.cj, vconj_vconj]
+
+/-- `A.T.H = A.conj()` and `A.H.T = A.conj()` -/
+theorem tr_herm (A : Op K) : Op.herm (Op.tr true A) = Op.cj A := by
+  cases A; rfl
+
+theorem herm_tr (A : Op K) : Op.tr true (Op.herm A) = Op.cj A := by
+  cases A; rfl
+
+/-- `A.conj().T = A.H`, `A.T.conj() = A.H`, `A.conj().H = A.T`, `A.H.conj() = A.T` -/
+theorem cj_tr (A : Op K) : Op.tr true (Op.cj A) = Op.herm A := by
+  cases A
+  simp [Op.tr, Op.cj, Op.herm, vconj_vconj]
+
+theorem tr_cj (A : Op K) : Op.cj (Op.tr true A) = Op.herm A := by
+  cases A
+  simp [Op.tr, Op.cj, Op.herm, vconj_vconj]
+
+theorem cj_herm (A : Op K) : Op.herm (Op.cj A) = Op.tr true A := by
+  cases A; rfl
+
+theorem herm_cj (A : Op K) : Op.cj (Op.herm A) = Op.tr true A := by
+  cases A; rfl
+
+/-- `(B @ A).H` has the closures of `A.H @ B.H` -/
+theorem comp_herm (B A : Op K) : Op.herm (Op.comp B A) = Op.comp (Op.herm A) (Op.herm B) := by
+  cases A; cases B; rfl
+
+/-- `(B @ A).T` has the closures of `A.T @ B.T`, `(B @ A).conj()` those of `B.conj() @ A.conj()` -/
+theorem comp_tr (B A : Op K) : Op.tr true (Op.comp B A) = Op.comp (Op.tr true A) (Op.tr true B) := by
+  cases A; cases B
+  simp [Op.tr, Op.comp, vconj_vconj]
+
+theorem comp_cj (B A : Op K) : Op.cj (Op.comp B A) = Op.comp (Op.cj B) (Op.cj A) := by
+  cases A; cases B
+  simp [Op.cj, Op.comp, vconj_vconj]
+
+/-- `gram_op` of the Hermitian transpose is `A Aᴴ`: `A.H.gram_op = (A @ A.H)` closures -/
+theorem herm_gram (A : Op K) : (Op.gram (Op.herm A)).eval = (Op.comp A (Op.herm A)).eval
+    ∧ (Op.gram (Op.herm A)).adj = (Op.comp A (Op.herm A)).eval := by
+  cases A; exact ⟨rfl, rfl⟩
+
+end Scico.Adjoint
